@@ -8,6 +8,7 @@ CONSTANTS
   Outs = {"ok", "err", "panic", "pnil", "exit"}
   Fins = {"none"}
   CancelOn = FALSE
+  DbStates = {"ok"}
 INVARIANTS TypeOK FinishedOnce CommitIffAllOk NoLaterStep NoBeginForEmpty RetRight GoneOnlyByExit
 PROPERTIES StepsOnlyInOpenTx ExecInsideTx FinishGuard NothingAfterAnswer
 VIEW View
